@@ -633,3 +633,104 @@ def drv_misuse(doc, args, inst):
 
 
 DRIVERS.update({'misuse': drv_misuse})
+
+
+def drv_save_load(doc, args, inst):
+    import os, tempfile
+    msgs = []
+    x = build(inst, args['x'], 5)
+    p = os.path.join(tempfile.mkdtemp(prefix='ttvc_'), 'x.TT')
+    try:
+        torchtt.save(x, p)
+        y = torchtt.load(p)
+    except Exception as e:
+        return ['save/load raises %s: %s' % (type(e).__name__, str(e)[:150])]
+    finally:
+        try:
+            os.remove(p); os.rmdir(os.path.dirname(p))
+        except OSError:
+            pass
+    if y.is_ttm != x.is_ttm or list(y.N) != list(x.N) or list(y.R) != list(x.R):
+        msgs.append('loaded object differs: %s vs %s' % (descr(y), descr(x)))
+    elif any(a.dtype != b.dtype or a.shape != b.shape or not tn.equal(a, b) for a, b in zip(y.cores, x.cores)):
+        msgs.append('loaded cores are not bit-identical')
+    return msgs
+
+
+def drv_copies(doc, args, inst):
+    msgs = []
+    x = build(inst, args['x'], 5)
+    op = args['op']
+    if op == 'detach_tracked':
+        for c in x.cores:
+            c.requires_grad_(True)
+        r = x.detach()
+        if any(c.requires_grad for c in r.cores):
+            msgs.append('detach() result still requires grad')
+        if not all(c.requires_grad for c in x.cores):
+            msgs.append('detach() changed the operand')
+        return msgs
+    f = x.full()
+    try:
+        r = {'clone': lambda: x.clone(), 'detach': lambda: x.detach(), 'cpu': lambda: x.cpu(), 'to_dtype': lambda: x.to(dtype=tn.float32),
+             'to_none': lambda: x.to(), 'numpy': lambda: x.numpy()}[op]()
+    except Exception as e:
+        return ['%s raises %s: %s' % (op, type(e).__name__, str(e)[:150])]
+    if op == 'numpy':
+        if not isinstance(r, np.ndarray) or list(r.shape) != list(f.shape) or not np.allclose(r, f.numpy()):
+            msgs.append('numpy() differs from full()')
+        return msgs
+    we = wf_errors(r)
+    if we:
+        msgs.append('not well formed: %s' % we)
+    if not relerr(r.full(), f) < (1e-5 if op == 'to_dtype' else 1e-12):
+        msgs.append('%s changed the value' % op)
+    if op == 'to_dtype' and any(c.dtype != tn.float32 for c in r.cores):
+        msgs.append('to(dtype=float32) did not convert')
+    if op == 'clone' and any(a.data_ptr() == b.data_ptr() for a, b in zip(r.cores, x.cores)):
+        msgs.append('clone shares storage with the original')
+    return msgs
+
+
+DRIVERS.update({'save_load': drv_save_load, 'copies': drv_copies})
+
+
+def drv_nn_layer(doc, args, inst):
+    import torchtt.nn as ttnn
+    msgs = []
+    n_in = [clampi(s, 1, 4) for s in inst['size_in']]
+    n_out = [clampi(s, 1, 4) for s in inst['size_out']]
+    R = [clampi(r, 1, 3) for r in inst['rank']]
+    R[0] = R[-1] = 1
+    nb = int(inst.get('nb', 0))
+    try:
+        layer = ttnn.LinearLayerTT(n_in, n_out, R, dtype=tn.float64, initializer=args.get('init', 'He'))
+    except Exception as e:
+        if args.get('expect_raise'):
+            if type(e).__name__ != 'InvalidArguments' and 'documented' in doc.get('obligation', ''):
+                return ['raises %s instead of InvalidArguments' % type(e).__name__]
+            return []
+        return ['LinearLayerTT(%s,%s,%s) raises %s: %s' % (n_in, n_out, R, type(e).__name__, str(e)[:150])]
+    if args.get('expect_raise'):
+        return ['unknown initializer accepted']
+    names = [n for n, _ in layer.named_parameters()]
+    if len(names) != len(n_in) + 1:
+        msgs.append('registered parameters: %s' % names)
+    with tn.no_grad():
+        layer.bias.copy_(tn.randn(n_out, dtype=tn.float64))
+    x = tn.randn([2] * nb + n_in, dtype=tn.float64)
+    y = layer(x)
+    W = torchtt.TT([c for c in layer.cores]).full()
+    d = len(n_in)
+    ref = tn.tensordot(x, W, dims=(list(range(nb, nb + d)), list(range(d, 2 * d)))) + layer.bias
+    if list(y.shape) != list(ref.shape):
+        msgs.append('forward shape %s vs %s' % (list(y.shape), list(ref.shape)))
+    elif not relerr(y, ref) < 1e-10:
+        msgs.append('forward differs from W x + b (rel.err %.2e) in=%s out=%s R=%s batch dims=%d' % (relerr(y, ref), n_in, n_out, R, nb))
+    y.sum().backward()
+    if any(p.grad is None for p in layer.parameters()):
+        msgs.append('a parameter received no gradient')
+    return msgs
+
+
+DRIVERS.update({'nn_layer': drv_nn_layer})
